@@ -16,6 +16,7 @@ TEXT = ("M1: the array merge never removes: no call with a removing effect (remo
         "M4: in read an object enters the reconstruction map only under `!winner.is_deleted()`, and unflatten consumes "
         "each referenced object with HashMap::remove (never get) and pushes an array element only on the found edge. "
         "Does not decide the relative-order clauses (they depend on where pivots fall, i.e. on values).")
+TECHNIQUE = 'static analysis over rustc MIR: who-may-remove on the merge destination, must-pass insert discipline per loop iteration, fold seeding and exhaustiveness, consuming-lookup check in unflatten'
 TRUSTED = ["rustc nightly MIR", "Vec::insert / push add exactly one element", "HashMap::remove consumes the entry"]
 
 REMOVERS = {"remove", "retain", "truncate", "clear", "drain", "pop", "swap_remove", "dedup", "dedup_by", "dedup_by_key",
